@@ -1,4 +1,4 @@
-import KyberModel.Lib.Decode
+import KyberModel.Lib.DecodeBLS
 /-
 C04 — decoding untrusted bytes never panics and admits only valid group elements.
 
@@ -270,12 +270,7 @@ end BN254
 
 /-! ### BLS12-381 G1 (ZCash compressed form) -/
 namespace BLS12381
-open Kyber.BLS12381 Kyber.Weierstrass
-
-theorem p_pos : 0 < p := by norm_num [p]
-theorem p_gt_one : 1 < p := by norm_num [p]
-theorem p_odd : p = 2 * half + 1 := by norm_num [p, half]
-theorem p_lt : p < 32 * 256 ^ 47 := by norm_num [p]
+open Kyber.BLS12381 Kyber.Weierstrass Kyber.DecodeLib.BLS
 
 theorem dec_length (bs : Bytes) (h : bs.length ≠ 48) : dec bs = none := by
   cases bs with
@@ -283,58 +278,6 @@ theorem dec_length (bs : Bytes) (h : bs.length ≠ 48) : dec bs = none := by
   | cons b rest =>
     have : rest.length ≠ 47 := by simpa using h
     simp [dec, this]
-
-theorem sqrtFp_some (a y : Nat) (h : sqrtFp a = some y) : y * y % p = a % p ∧ y < p := by
-  unfold sqrtFp at h
-  by_cases h1 : sqrtCand a * sqrtCand a % p = a % p
-  · rw [if_pos h1] at h
-    have hy : sqrtCand a = y := Option.some.inj h
-    subst hy
-    exact ⟨h1, powMod_lt _ _ _ p_gt_one⟩
-  · rw [if_neg h1] at h
-    cases h
-
-/-- Shape of an accepted affine decompression. -/
-theorem decXY_some (big : Bool) (x : Nat) (P : Pt) (h : decXY big x = some P) :
-    x < p ∧ ∃ y0, sqrtFp (rhs x) = some y0 ∧
-      P = some (x, pickRoot big y0) ∧ smul curve r P = none := by
-  unfold decXY at h
-  split_ifs at h with h1
-  split at h
-  · cases h
-  · rename_i y0 hy0
-    split_ifs at h with h2
-    cases h
-    exact ⟨by omega, y0, hy0, rfl, h2⟩
-
-theorem decXY_of (big : Bool) (x y0 : Nat) (hx : x < p) (hs : sqrtFp (rhs x) = some y0)
-    (hr : smul curve r (some (x, pickRoot big y0)) = none) :
-    decXY big x = some (some (x, pickRoot big y0)) := by
-  unfold decXY
-  rw [if_neg (by omega)]
-  split
-  · next h => rw [hs] at h; cases h
-  · next y hy =>
-    rw [hs] at hy; cases hy
-    rw [if_pos hr]
-
-theorem decXY_valid (big : Bool) (x : Nat) (P : Pt) (h : decXY big x = some P) :
-    onCurve curve P = true ∧ smul curve r P = none := by
-  obtain ⟨hx, y0, hs, hP, hr⟩ := decXY_some big x P h
-  refine ⟨?_, hr⟩
-  obtain ⟨hy0, _⟩ := sqrtFp_some _ _ hs
-  unfold rhs at hy0
-  rw [Nat.mod_mod] at hy0
-  have h1 := (mod_eq_iff_cast p _ _).mp hy0
-  subst hP
-  apply decide_eq_true
-  show _ % p = (x * x % p * x + 0 * x + 4) % p
-  rw [mod_eq_iff_cast]
-  unfold pickRoot
-  push_cast [ZMod.natCast_mod] at h1 ⊢
-  split_ifs
-  · linear_combination h1
-  · rw [cast_negMod p_pos]; linear_combination h1
 
 /-- An accepted point is on the curve and in the subgroup of order `r`. -/
 theorem dec_valid (bs : Bytes) (P : Pt) (h : dec bs = some P) :
@@ -346,57 +289,6 @@ theorem dec_valid (bs : Bytes) (P : Pt) (h : dec bs = some P) :
     split_ifs at h with h1 h2 h3 h4
     · cases h; exact ⟨rfl, smul_none _ _⟩
     · exact decXY_valid _ _ _ h
-
-/-- Re-selecting the root from the "larger root" flag of the decoded `y`. -/
-theorem root_fix (y0 : Nat) (big : Bool) (hy0 : y0 < p) :
-    pickRoot (decide (half < pickRoot big y0)) y0 = pickRoot big y0 := by
-  have hodd := p_odd
-  unfold pickRoot
-  by_cases hc : decide (half < y0) = big
-  · simp [hc]
-  · simp only [hc, if_false]
-    rcases Nat.eq_zero_or_pos y0 with h0 | h0
-    · subst h0; simp [negMod]
-    · have hn : negMod y0 p = p - y0 := by
-        unfold negMod; rw [Nat.mod_eq_of_lt hy0, Nat.mod_eq_of_lt (by omega)]
-      rw [hn]
-      have : ¬ (decide (half < y0) = decide (half < p - y0)) := by
-        simp only [decide_eq_decide]; omega
-      simp [this]
-
-theorem enc_some (x y : Nat) (hx : x < p) :
-    enc (some (x, y)) = (UInt8.ofNat (x / 256 ^ 47) ||| (if y > (p - 1) / 2 then 0xa0 else 0x80)) :: encodeBE 47 x := by
-  have hplt := p_lt
-  have htop : x / 256 ^ 47 % 256 = x / 256 ^ 47 := Nat.mod_eq_of_lt (by omega)
-  have henc : encodeBE 48 x = UInt8.ofNat (x / 256 ^ 47) :: encodeBE 47 x := by
-    rw [encodeBE_succ 47 x, htop]
-  simp only [enc, henc]
-
-/-- Decoding a well-formed compressed encoding of `x` with flag `big`. -/
-theorem dec_compressed (x : Nat) (hx : x < p) (big : Bool) :
-    dec ((UInt8.ofNat (x / 256 ^ 47) ||| (if big then 0xa0 else 0x80)) :: encodeBE 47 x) = decXY big x := by
-  have hplt := p_lt
-  have htop : x / 256 ^ 47 % 256 = x / 256 ^ 47 := Nat.mod_eq_of_lt (by omega)
-  have htop32 : x / 256 ^ 47 < 32 := by omega
-  have hx48 : x < 256 ^ 48 := by omega
-  have henc : encodeBE 48 x = UInt8.ofNat (x / 256 ^ 47) :: encodeBE 47 x := by
-    rw [encodeBE_succ 47 x, htop]
-  obtain ⟨hfa, hf8⟩ := or_flag _ htop32
-  have hback : decodeBE (UInt8.ofNat (x / 256 ^ 47) :: encodeBE 47 x) = x := by
-    rw [← henc, decodeBE_encodeBE_of_lt 48 x hx48]
-  cases big
-  · simp only [dec, encodeBE_length, ne_eq, not_true_eq_false, if_false, hf8, Bool.false_eq_true]
-    have e1 : ¬ ((x / 256 ^ 47 + 128) / 128 = 0) := by omega
-    have e2 : ¬ ((x / 256 ^ 47 + 128) / 64 % 2 = 1) := by omega
-    have e3 : ((x / 256 ^ 47 + 128) / 32 % 2 == 1) = false := by simp; omega
-    have e4 : (x / 256 ^ 47 + 128) % 32 = x / 256 ^ 47 := by omega
-    rw [if_neg e1, if_neg e2, e3, e4, hback]
-  · simp only [dec, encodeBE_length, ne_eq, not_true_eq_false, if_false, hfa, if_true]
-    have e1 : ¬ ((x / 256 ^ 47 + 160) / 128 = 0) := by omega
-    have e2 : ¬ ((x / 256 ^ 47 + 160) / 64 % 2 = 1) := by omega
-    have e3 : ((x / 256 ^ 47 + 160) / 32 % 2 == 1) = true := by simp; omega
-    have e4 : (x / 256 ^ 47 + 160) % 32 = x / 256 ^ 47 := by omega
-    rw [if_neg e1, if_neg e2, e3, e4, hback]
 
 theorem dec_enc (bs : Bytes) (P : Pt) (h : dec bs = some P) : dec (enc P) = some P := by
   cases P with
@@ -429,13 +321,6 @@ theorem dec_enc (bs : Bytes) (P : Pt) (h : dec bs = some P) : dec (enc P) = some
 example : dec (enc base) = some base := by decide +kernel
 
 
-theorem decAffine_valid (x y : Nat) (P : Pt) (h : decAffine x y = some P) :
-    onCurve curve P = true ∧ smul curve r P = none := by
-  unfold decAffine at h
-  split_ifs at h with h1 h2
-  cases h
-  exact h2
-
 /-- Also in the forms only CIRCL and gnark accept (over-long, uncompressed), an accepted point is on the
     curve and in the subgroup. -/
 theorem decLenient_valid (z : Bool) (bs : Bytes) (P : Pt) (h : decLenient z bs = some P) :
@@ -460,44 +345,12 @@ theorem decLenient_length (z : Bool) (bs : Bytes) (h : bs.length < 48) : decLeni
 end BLS12381
 
 /-! ### BN256 / BN254 G2 (over `Fp2`) -/
-namespace G2
-open Kyber.Fp2
-
-theorem coords_length (bs : Bytes) (h : bs.length < 128) : coords bs = none := by simp [coords, h]
-
-/-- The four coordinates are read back from an encoding of reduced coordinates. -/
-theorem coords_enc (x y : El) (h1 : x.1 < 256 ^ 32) (h2 : x.2 < 256 ^ 32) (h3 : y.1 < 256 ^ 32) (h4 : y.2 < 256 ^ 32) :
-    coords (enc (some (x, y))) = some (x, y) := by
-  have e : enc (some (x, y)) = encodeBE 32 x.2 ++ (encodeBE 32 x.1 ++ (encodeBE 32 y.2 ++ encodeBE 32 y.1)) := by
-    simp [enc]
-  rw [e]
-  unfold coords
-  rw [if_neg (by simp)]
-  have d32 : ∀ (a b : Bytes), a.length = 32 → (a ++ b).drop 32 = b := fun a b h => drop_append_of_length a b 32 h
-  have t32 : ∀ (a b : Bytes), a.length = 32 → (a ++ b).take 32 = a := fun a b h => take_append_of_length a b 32 h
-  have d64 : ∀ (a b c : Bytes), a.length = 32 → b.length = 32 → (a ++ (b ++ c)).drop 64 = c := by
-    intro a b c ha hb
-    have : (a ++ (b ++ c)).drop 64 = ((a ++ (b ++ c)).drop 32).drop 32 := by rw [List.drop_drop]
-    rw [this, d32 a _ ha, d32 b _ hb]
-  have d96 : ∀ (a b c d : Bytes), a.length = 32 → b.length = 32 → c.length = 32 →
-      (a ++ (b ++ (c ++ d))).drop 96 = d := by
-    intro a b c d ha hb hc
-    have : (a ++ (b ++ (c ++ d))).drop 96 = ((a ++ (b ++ (c ++ d))).drop 64).drop 32 := by rw [List.drop_drop]
-    rw [this, d64 a b _ ha hb, d32 c _ hc]
-  simp only []
-  rw [t32 _ _ (by simp), d32 _ _ (by simp), t32 _ _ (by simp), d64 _ _ _ (by simp) (by simp), t32 _ _ (by simp),
-    d96 _ _ _ _ (by simp) (by simp) (by simp), List.take_of_length_le (by simp),
-    decodeBE_encodeBE_of_lt 32 _ h1, decodeBE_encodeBE_of_lt 32 _ h2, decodeBE_encodeBE_of_lt 32 _ h3,
-    decodeBE_encodeBE_of_lt 32 _ h4]
-
-theorem coords_zero : coords (enc none) = some ((0, 0), (0, 0)) := by decide +kernel
-end G2
 
 namespace BN256G2
 open Kyber.BN256 Kyber.Fp2
 
 theorem decG2_length (bs : Bytes) (h : bs.length < 128) : decG2 bs = none := by
-  simp [decG2, G2.coords_length bs h]
+  simp [decG2, DecodeLib.G2.coords_length bs h]
 
 theorem p_lt : p < 256 ^ 32 := by norm_num [p]
 theorem p_pos : 0 < p := by norm_num [p]
@@ -528,7 +381,7 @@ theorem decG2_enc (bs : Bytes) (P : Fp2.Pt) (h : decG2 bs = some P) : decG2 (Fp2
     obtain ⟨h1, h2, h3, h4, hne⟩ := hlt x y rfl
     have hp := p_lt
     unfold decG2
-    rw [G2.coords_enc x y (by omega) (by omega) (by omega) (by omega)]
+    rw [DecodeLib.G2.coords_enc x y (by omega) (by omega) (by omega) (by omega)]
     have rx : red p x = x := by unfold red; rw [Nat.mod_eq_of_lt h1, Nat.mod_eq_of_lt h2]
     have ry : red p y = y := by unfold red; rw [Nat.mod_eq_of_lt h3, Nat.mod_eq_of_lt h4]
     simp only [rx, ry]
@@ -539,7 +392,7 @@ namespace BN254G2
 open Kyber.BN254 Kyber.Fp2
 
 theorem decG2_length (bs : Bytes) (h : bs.length < 128) : decG2 bs = none := by
-  simp [decG2, G2.coords_length bs h]
+  simp [decG2, DecodeLib.G2.coords_length bs h]
 
 theorem p_lt : p < 256 ^ 32 := by norm_num [p]
 
@@ -568,7 +421,7 @@ theorem decG2_enc (bs : Bytes) (P : Fp2.Pt) (h : decG2 bs = some P) : decG2 (Fp2
     obtain ⟨h1, h2, h3, h4, hne⟩ := hlt x y rfl
     have hp := p_lt
     unfold decG2
-    rw [G2.coords_enc x y (by omega) (by omega) (by omega) (by omega)]
+    rw [DecodeLib.G2.coords_enc x y (by omega) (by omega) (by omega) (by omega)]
     simp only []
     rw [if_neg (by omega), if_neg hne, if_pos ⟨hc, hr⟩]
 end BN254G2
